@@ -290,6 +290,13 @@ impl Prop for C12 {
     .into_iter()
     .collect()
   }
+  fn stages(&self, ctx: &Ctx) -> Vec<Stage> {
+    if ctx.tier == Tier::Thorough {
+      crate::fuzz::campaigns("C12", &["codec"], ctx)
+    } else {
+      vec![]
+    }
+  }
   fn check(&self, case: &Case) -> CheckResult {
     let r = guard(|| -> Result<CaseInfo, String> {
       match case {
